@@ -12,6 +12,18 @@ for pid in ids:
     if getattr(m, "NOT_APPLICABLE", None):
         na.append({"property_id": pid, "reason": m.NOT_APPLICABLE})
         continue
+    targets = [t for d in getattr(m, "DEDUCTIVE", []) for t in d.get("targets", [])]
+    funcs = sorted({t.split("@")[0] for t in targets if not t.startswith("lemma:")})
+    nlem = sum(t.startswith("lemma:") for t in targets)
+    if getattr(m, "deductive_extra", None):
+        funcs.append("finite-domain obligations (deductive_extra)")
+    if funcs or nlem:
+        tech = ("contract-based deductive verification of the real source (pyvc: verification conditions generated from the AST of /repo on every run, "
+                "sidecar contracts, discharged by z3/cvc5) - under contract: " + ", ".join(funcs) + (f"; {nlem} SMT lemmas" if nlem else "") +
+                "; remaining sub-claims by a bounded stand-in (independent run-time oracle), labelled bounded and not counted as proved")
+    else:
+        tech = ("bounded stand-in only (independent run-time oracle on enumerated / generated inputs): no function of this property is under contract yet - "
+                "see DESIGN.md I.7 for why; not counted as proved")
     checks.append({
         "property_id": pid,
         "quick_cmd": f"./check.py {pid} --tier quick",
@@ -23,7 +35,7 @@ for pid in ids:
                           "text": getattr(m, "LEVEL_TEXT", "contract obligations on the real functions discharged by SMT where the engine reaches them; the rest of the property is covered by a bounded stand-in (independent oracle run on enumerated inputs), labelled bounded in the evidence and not counted as proved"),
                           "design_ref": f"DESIGN.md section 4 / {pid}"},
         "level_note": getattr(m, "LEVEL_NOTE", "trusted: z3/cvc5, the pyvc encoding of Python semantics (DESIGN 2.3), CPython; " + "; ".join(getattr(m, "ASSUMPTIONS", []))),
-        "technique": getattr(m, "TECHNIQUE", "contract-based deductive verification (self-generated VCs from the AST of the real source, z3/cvc5) + bounded run-time oracle as stand-in"),
+        "technique": getattr(m, "TECHNIQUE", tech),
     })
 man = {
     "version": 1,
